@@ -177,26 +177,30 @@ where
     }
 }
 
-/// Free-running pass on real pools (sampling; guards the assumption, never decides alone).
+/// Free-running pass on real pools (sampling; guards the assumption "the outcome depends on the
+/// schedule only through the split tree", never decides alone). Many small jobs on pools of 2..16
+/// real threads, so that fold steps of different workers genuinely overlap in time: closures that
+/// share mutable state (which the exhaustive part, run on a 1-thread pool, cannot see) show up here
+/// with high probability.
 fn free_running(run: &Run) {
-    let chunks = 9;
-    let calls = 3;
-    let p = 4;
-    let mut st = run.seed ^ 0xF5EE;
-    let inp: Vec<Vec<Field128>> = (0..2 * chunks).map(|_| wire_poly(p, &mut st, 0)).collect();
-    let serial: ParallelSum<Field128, Mul> = ParallelSum::new(Mul::new(calls), chunks);
-    let multi: ParallelSumMultithreaded<Field128, Mul> = ParallelSumMultithreaded::new(Mul::new(calls), chunks);
-    let mut want = vec![Field128::zero(); 2 * p];
-    serial.eval_poly(&mut want, &inp).unwrap();
-    for threads in [2usize, 3, 4, 8, 16] {
-        let pool = rayon::ThreadPoolBuilder::new().num_threads(threads).build().unwrap();
-        for _ in 0..run.pick(50, 500) {
-            let mut out = vec![Field128::from(7u128); 2 * p];
-            pool.install(|| multi.eval_poly(&mut out, &inp)).unwrap();
-            run.count("free_running_samples", 1);
-            if out != want {
-                run.fail(&format!("free_running/threads={threads}"), &format!("free-running pool of {threads} threads produced a result different from serial"), json!({"threads": threads}));
-                return;
+    for (chunks, calls) in [(9usize, 3usize), (64, 1), (257, 1), (33, 7)] {
+        let p = (1 + calls).next_power_of_two();
+        let mut st = run.seed ^ 0xF5EE ^ chunks as u64;
+        let inp: Vec<Vec<Field128>> = (0..2 * chunks).map(|_| wire_poly(p, &mut st, 0)).collect();
+        let serial: ParallelSum<Field128, Mul> = ParallelSum::new(Mul::new(calls), chunks);
+        let multi: ParallelSumMultithreaded<Field128, Mul> = ParallelSumMultithreaded::new(Mul::new(calls), chunks);
+        let mut want = vec![Field128::zero(); 2 * p];
+        serial.eval_poly(&mut want, &inp).unwrap();
+        for threads in [2usize, 3, 4, 8, 16] {
+            let pool = rayon::ThreadPoolBuilder::new().num_threads(threads).build().unwrap();
+            for _ in 0..run.pick(150, 3000) {
+                let mut out = vec![Field128::from(7u128); 2 * p];
+                let r = catch(|| pool.install(|| multi.eval_poly(&mut out, &inp)));
+                run.count("free_running_samples", 1);
+                if !matches!(r, Ok(Ok(()))) || out != want {
+                    run.fail(&format!("free_running/chunks={chunks}/threads={threads}"), &format!("ParallelSumMultithreaded(chunks={chunks}, calls={calls}) on a free-running pool of {threads} threads produced a result different from the serial gadget (or failed)"), json!({"threads": threads, "chunks": chunks, "calls": calls}));
+                    return;
+                }
             }
         }
     }
